@@ -144,3 +144,79 @@ Proof.
   destruct (p_inputs s) as [|i0 [|? ?]]; try discriminate. destruct (p_flight s) as [|f0 [|? ?]]; try discriminate.
   inversion H1; subst. inversion H3; subst. simpl in E. rewrite !app_nil_r in E. exact E.
 Qed.
+
+(* ------------------------------------------------------------ the input side *)
+From PP Require Import Warc.WarcDefs Warc.WarcProofs Compress.CompressDefs Compress.CompressProofs.
+
+Lemma ptool_inputs_all read streams inputs :
+  ptool_inputs read streams = Some inputs -> Forall2 (fun s r => read s = Some r) streams inputs.
+Proof.
+  revert inputs. induction streams as [|s streams IH]; intros inputs H; simpl in H.
+  - inversion H. constructor.
+  - destruct (read s) as [r|] eqn:E; [|discriminate].
+    destruct (ptool_inputs read streams) as [l|]; [|discriminate].
+    inversion H; subst. constructor; [exact E|apply IH; reflexivity].
+Qed.
+
+(* the reader of one plain input delivered in fragments f *)
+Definition read_plain (n fuel : nat) (f : frags) : option (list rec) :=
+  match warc_file n fuel f with
+  | AllOk recs => Some recs
+  | AllErr _ _ => None
+  end.
+
+(* a plain input that is read successfully IS the concatenation of the returned
+   records, each ending in CR LF CR LF *)
+Lemma warc_file_success_exact n fuel f recs :
+  detect_magic (takeN kMagicSize (fbytes f)) = None ->
+  warc_file n fuel f = AllOk recs ->
+  concat recs = fbytes f /\ Forall ends_with_trailer recs.
+Proof.
+  intros Hd H. unfold warc_file, rc_open in H. rewrite read_factory_eq in H.
+  unfold fact_header in H. change (len (@nil Z) <? kMagicSize)%N with true in H. cbv iota in H.
+  change (kMagicSize - len (@nil Z))%N with kMagicSize in H.
+  destruct (read_or_eof f kMagicSize) as [got f1] eqn:ER.
+  apply read_or_eof_spec in ER. destruct ER as [Eg Ef].
+  simpl app in H. rewrite <- Eg in Hd.
+  destruct got as [|b got].
+  - set (s0 := mkr unit unit f1 tt RComplete) in *.
+    assert (L : len (takeN kMagicSize (fbytes f)) = 0%N) by (rewrite <- Eg; reflexivity).
+    rewrite len_takeN in L.
+    assert (Hc : fbytes f = []).
+    { apply len_zero_nil. assert (0 < kMagicSize)%N by (vm_compute; reflexivity). lia. }
+    assert (Hi0 : rc_inv s0).
+    { unfold rc_inv, pgood, rc_rem, s0. simpl. split; [|reflexivity].
+      rewrite Ef, Hc. apply dropN_all. rewrite len_nil. lia. }
+    destruct (success_is_exact_proof (rstate unit unit) rc_read rc_rem rc_inv rc_read_contract n fuel s0 [] recs Hi0 H) as [H1 H2].
+    split; [|exact H2]. rewrite H1, Hc. reflexivity.
+  - rewrite Hd in H.
+    set (s0 := mkr unit unit f1 tt (RHeader (b :: got))) in *.
+    assert (Hi0 : rc_inv s0).
+    { unfold rc_inv, pgood, rc_rem, s0. simpl. split; [discriminate|reflexivity]. }
+    destruct (success_is_exact_proof (rstate unit unit) rc_read rc_rem rc_inv rc_read_contract n fuel s0 [] recs Hi0 H) as [H1 H2].
+    split; [|exact H2]. rewrite H1. unfold rc_rem, s0. simpl.
+    change (b :: got ++ fbytes f1) with ((b :: got) ++ fbytes f1). rewrite Eg, Ef. apply takeN_dropN.
+Qed.
+
+(* the tool can only complete normally when every input is, byte for byte, a
+   concatenation of CR LF CR LF terminated records: an input cut inside a record
+   (or with garbage between records) makes the tool fail, for every schedule *)
+Theorem parallel_tool_inputs_exact n fuel (inputs_frags : list frags) jobs sched st :
+  Forall (fun f => detect_magic (takeN kMagicSize (fbytes f)) = None) inputs_frags ->
+  ptool (fun s => read_plain n fuel [s]) (map fbytes inputs_frags) jobs sched = Some st ->
+  exists inputs, st = prun (pinit inputs jobs) sched /\
+    Forall2 (fun f recs => concat recs = fbytes f /\ Forall ends_with_trailer recs) inputs_frags inputs.
+Proof.
+  intros Hd H. unfold ptool in H.
+  destruct (ptool_inputs (fun s => read_plain n fuel [s]) (map fbytes inputs_frags)) as [inputs|] eqn:E; [|discriminate].
+  inversion H; subst. exists inputs. split; [reflexivity|].
+  apply ptool_inputs_all in E. clear H.
+  revert inputs E. induction inputs_frags as [|f fs IH]; intros inputs E; simpl in E; inversion E; subst; constructor.
+  - unfold read_plain in H1. destruct (warc_file n fuel [fbytes f]) as [recs|e recs] eqn:EW; [|discriminate].
+    inversion H1; subst.
+    inversion Hd; subst.
+    assert (Hfb : fbytes [fbytes f] = fbytes f) by (unfold fbytes; simpl; apply app_nil_r).
+    destruct (warc_file_success_exact n fuel [fbytes f] y) as [Hc Ht]; [rewrite Hfb; assumption|exact EW|].
+    rewrite Hfb in Hc. auto.
+  - apply IH; [inversion Hd; assumption|assumption].
+Qed.
